@@ -202,6 +202,71 @@ def run_bin(name, args, timeout=600, env=None, stdin=None, check=True, cwd=None)
     return p
 
 
+def run_stimuli(name, mode, stim_path, out_path, extra=(), timeout=1800, env=None, max_crashes=40):
+    """Crash-safe form of `h_<x> <mode> <stimuli.ndjson> <out.ndjson> [extra...]` for harnesses that write one
+    {"ev":"reset","id":<stimulus id>} record when a stimulus starts and one {"ev":"end"} record when it is done (vrt::Tracer
+    flushes at those records). If the process dies (signal, abort, non-zero exit) the code under test crashed: the
+    complete runs recorded so far are kept, an {"ev":"abort"} record is appended after the reset of the run that crashed
+    - the judges reject it - and the harness is restarted on the remaining stimuli. Returns (records, crashes)."""
+    stims = read_ndjson(stim_path)
+    out_all = []
+    crashes = 0
+    part = 0
+    todo = stims
+    t_end = time.time() + timeout
+    while todo:
+        sp = "%s.part%d" % (stim_path, part)
+        op = "%s.part%d" % (out_path, part)
+        write_ndjson(sp, todo)
+        if os.path.exists(op):
+            os.remove(op)
+        left = max(30, t_end - time.time())
+        p = run_bin(name, [mode, sp, op] + list(extra), timeout=left, env=env, check=False)
+        recs = []
+        if os.path.exists(op):
+            with open(op, errors="replace") as f:
+                for line in f:
+                    line = line.strip()
+                    if not line:
+                        continue
+                    try:
+                        recs.append(json.loads(line))
+                    except ValueError:
+                        break           # torn last line of a crashed process
+        if p.returncode == 0:
+            out_all.extend(recs)
+            break
+        # crashed: which stimulus was running?
+        crashes += 1
+        last_reset = max((i for i, r in enumerate(recs) if r.get("ev") == "reset"), default=None)
+        if last_reset is None:
+            raise ToolError("harness %s %s died before it started the first stimulus rc=%s\n%s" % (
+                name, mode, p.returncode, (p.stderr or "")[-3000:]))
+        # drop what the crashed run logged after its reset (normally nothing: logs are written at the end of a run)
+        closed = any(r.get("ev") == "end" for r in recs[last_reset:])
+        rid = recs[last_reset].get("id")
+        idx = next((i for i, s in enumerate(todo) if s.get("id") == rid), None)
+        if closed or idx is None:
+            # crashed between two runs (e.g. heap corruption noticed later): blame the last started run
+            idx = idx if idx is not None else sum(1 for r in recs if r.get("ev") == "reset") - 1
+            recs = recs[:last_reset + 1]
+        else:
+            recs = recs[:last_reset + 1]
+        recs.append({"ev": "abort", "id": rid, "rc": p.returncode, "stderr": (p.stderr or "")[-300:]})
+        recs.append({"ev": "end", "id": rid, "outcome": "crashed", "drift": 0, "panics": ["process died rc=%s" % p.returncode],
+                     "pool_len": -1, "callbacks": 0, "steps": 0})
+        out_all.extend(recs)
+        log("harness %s %s: the code under test crashed the process (rc=%s) in stimulus id=%s; recorded as abort, continuing" % (
+            name, mode, p.returncode, rid))
+        if crashes >= max_crashes:
+            log("too many crashes, the remaining %d stimuli are not run" % (len(todo) - idx - 1))
+            break
+        todo = todo[idx + 1:]
+        part += 1
+    write_ndjson(out_path, out_all)
+    return out_all, crashes
+
+
 # ----------------------------------------------------------------------------------------- verdict
 
 class Run:
